@@ -378,6 +378,16 @@ func runC09(c *Ctx) {
 			}
 		})
 		L.Check(okAppend && okStop, "R-C09-SAMPLE", "sampledLFU.fillSample", "appends {key,cost} pairs ranged from keyCosts until len >= lfuSample", "fillSample does not append ranged keyCosts pairs up to lfuSample", f.Pos())
+		// observation (no property violated): the refill never looks at what the sample already holds
+		dedupes := false
+		eachInstr(f, func(in ssa.Instruction) {
+			if bo, ok := in.(*ssa.BinOp); ok && (bo.Op == token.EQL || bo.Op == token.NEQ) && strings.Contains(t.T(bo).String(), "fld[key](") {
+				dedupes = true
+			}
+		})
+		if !dedupes {
+			L.Advisory("fillSample re-appends keys the sample already holds (no membership test): a key can be a candidate twice, be chosen as victim twice in one Add (the second evict.del is a no-op) and reach OnEvict a second time with the zero value; noted independently by three seeding agents; every accepted value still leaves exactly once")
+		}
 	})
 
 	c.Group("R-C09-ESTIMATE", "tinyLFU.Estimate", func() {
